@@ -49,7 +49,6 @@ def Store.put (s : Store) (k b : Bytes) : Store := (k, b) :: s
 def buildP (get : Bytes → Option Bytes) : Nat → Bytes → PTree
   | 0, k => .missing k
   | n + 1, k =>
-    if k = [] then .empty else
     match get k with
     | none => .missing k
     | some bs =>
@@ -61,6 +60,10 @@ def buildP (get : Bytes → Option Bytes) : Nat → Bytes → PTree
                         | _ => .empty) v
       | .ok ⟨_, _, .ext p ck⟩ => .ext p (buildP get n ck)
       | _ => .missing k
+
+/-- the trie under a root key: `Iterate` / `GetNodeValueRaw` treat the nil root as the empty trie -/
+def buildRoot (get : Bytes → Option Bytes) (fuel : Nat) (root : Bytes) : PTree :=
+  if root = [] then .empty else buildP get fuel root
 
 /-! ### iterate / HasMissingNodes -/
 
